@@ -231,21 +231,24 @@ def d3(ctx, rep):
                     why = f'`{short(s, 50)}` overwrites the user-supplied {pname}'
         rep.check('D3.bounds', fit, locs[0] if locs else direct[0], ok, f'{pname}: data-driven value only when the option is None', why,
                   construct=f'self.{attr} honoured')
-    # the bounds used for the standardised a, b are those values
+    # the standardised bounds a, b are computed from the corresponding (user or data-driven) bound
+    from ..kinds import DepKind
+    from ..absint import Frame as _F
+    dk = DepKind(ctx)
+    fr = _F(fit, {}, tg)
     ds = params_dicts(fit)
     if ds:
         s, d = ds[0]
-        for key, attr in (('a', 'min'), ('b', 'max')):
-            e = _res(fit, d.get(key))
-            good = False
-            if isinstance(e, ast.BinOp) and isinstance(e.op, ast.Div) and isinstance(e.left, ast.BinOp) and isinstance(e.left.op, ast.Sub):
-                src = e.left.left
-                srcs = {src.id} if isinstance(src, ast.Name) else set()
-                good = is_self_attr(src, fit.self_name, attr) or any(
-                    isinstance(a2, ast.Assign) and is_self_attr(a2.value, fit.self_name, attr) and isinstance(a2.targets[0], ast.Name)
-                    and a2.targets[0].id in srcs for a2 in walk_no_nested(fit.node))
-            rep.check('D3.bounds', fit, s, good, f"'{key}' = ({attr} bound - loc) / scale", f"the standardised bound '{key}' is not computed from the {attr} bound",
-                      construct=f"standardised '{key}'")
+        for key, attr, other in (('a', 'min', 'max'), ('b', 'max', 'min')):
+            if key not in d:
+                continue
+            deps = dk.value(d[key], fr)
+            if not isinstance(deps, frozenset) or '?' in deps:
+                rep.undecided('D3.bounds', fit, s, f"what the standardised bound '{key}' is computed from is not derivable", construct=f"standardised '{key}'")
+            else:
+                good = f'self.{attr}' in deps and f'self.{other}' not in deps
+                rep.check('D3.bounds', fit, s, good, f"'{key}' depends on the {attr} bound (and not on the {other} bound)",
+                          f"the standardised bound '{key}' is not computed from the {attr} bound (it depends on {sorted(deps)})", construct=f"standardised '{key}'")
 
 
 def d4(ctx, rep):
